@@ -167,6 +167,17 @@ def make_events(rep, rng, n, events, recipes, with_dsl=True):
             else:
                 rrs = [spec_rule_recipe(rng) for _ in range(rng.choice([0, 1, 2, 3]))]
                 specs = [gd.spell_rule(rng, rr, __import__("copy").deepcopy(rng.choice(gd.DOC_SHAPES))) for rr in rrs]
+                if specs and rng.random() < 0.15:
+                    # a second rule that differs from an earlier one only by an ==-twin of another type in its path
+                    # (1 / 1.0 / true): another rule, however alike the two specs compare
+                    tw = __import__("copy").deepcopy(rng.choice(specs))
+                    pth = tw.get("path")
+                    if isinstance(pth, list):
+                        k = rng.choice([1, 0, 2])
+                        pth2 = list(pth) + [k]
+                        tw["path"] = list(pth) + [rng.choice([float(k), bool(k)] if k in (0, 1) else [float(k)])]
+                        first = dict(__import__("copy").deepcopy(tw), path=pth2)
+                        specs += [first, tw]
                 route = rng.choice(["json_like", "yaml", "yaml_file"])
                 if route == "json_like":
                     lit = to_lit(specs)
